@@ -162,3 +162,122 @@ Print Assumptions C16_subst_error_iff.
 Print Assumptions C16_load_is_spec.
 Print Assumptions C16_selected_only.
 Print Assumptions C16_unselected_irrelevant.
+
+(* ======================================================================================
+   Model-level composition (design_notes/AUDIT-C11-C20.md, C16: the unselected-branch clause
+   was stated for load_full_spec only; C16_resolve unfolds resolve_str).
+
+   load_full is the MODEL of Builder.FromBytes (reduceAny, non-map check, template pass).
+   Resolves / Fails are the relational specification of C03 (GConfRelSpec, written from the
+   property text).  Outcome is the three-way outcome of one string written over the documented
+   grammar alone (TmplProofs.shape / render / doc_ok), without match_env or trim_quotes.   *)
+From GT Require Import GConfRelSpec GConfRelProofs TmplCompProofs.
+
+(* nothing in an entry that is not active — an unset variable included — changes what the
+   CODE's loading returns: two well-formed documents that agree on the selected part load to
+   the same configuration or both fail *)
+Theorem C16_model_unselected_irrelevant : forall dims env t t' p p',
+  WF dims p t -> WF dims p' t' -> Agree dims t t' ->
+  load_full dims env t = load_full dims env t'.
+Proof. exact model_unselected_irrelevant. Qed.
+
+(* loading is the template pass over THE document t resolves to (and to nothing else) ... *)
+Theorem C16_model_load_resolved : forall dims env t p r,
+  WF dims p t -> is_map t -> Resolves dims t r ->
+  load_full dims env t = templates_over env r.
+Proof. exact model_load_resolved. Qed.
+
+(* ... so it fails exactly when resolution fails, the root is not a map before or after
+   resolution, or a string of the RESOLVED document fails under the environment *)
+Theorem C16_model_error_iff : forall dims env t p, WF dims p t ->
+  (load_full dims env t = Err <->
+   Fails dims t \/ ~ is_map t \/
+   exists r, Resolves dims t r /\
+             (~ is_map r \/ exists s, In s (strings_of r) /\ resolve_str env s = Err)).
+Proof. exact model_error_iff. Qed.
+
+(* the outcome of one string, mentioning only the rendered string, the environment and the
+   result: value of NAME if set (even empty), else DEFAULT without its surrounding double
+   quotes, else an error; any string that is not template-shaped is returned unchanged *)
+Theorem C16_template_outcome : forall env s o, Outcome env s o -> resolve_str env s = o.
+Proof. exact template_outcome. Qed.
+
+Theorem C16_template_outcome_total : forall env s,
+  (exists name dflt, TemplateOf s name dflt) \/ ~ shaped (list_ascii_of_string s) ->
+  exists o, Outcome env s o.
+Proof. exact template_outcome_total. Qed.
+
+(* non-vacuity: two well-formed documents that agree on the selected part (D1a selected) and
+   differ in the unselected D1b entry, which holds an unset variable in one of them and a
+   stuck switch of another dimension in the other; both load to the same configuration *)
+Definition unsel_doc1 : tree :=
+  Mp [("k", Mp [("D1a", Str "${{env:SET}}"); ("D1b", Str "${{env:UNSET}}")])].
+Definition unsel_doc2 : tree :=
+  Mp [("k", Mp [("D1a", Str "${{env:SET}}"); ("D1b", Mp [("D2b", Null)])])].
+
+Example C16_example_model_unselected :
+  WF dims12 None unsel_doc1 /\ WF dims12 None unsel_doc2 /\ Agree dims12 unsel_doc1 unsel_doc2 /\
+  unsel_doc1 <> unsel_doc2 /\
+  load_full dims12 [("SET", "v")] unsel_doc1 = Ok [("k", Str "v")] /\
+  load_full dims12 [("SET", "v")] unsel_doc2 = Ok [("k", Str "v")] /\
+  resolve_str [("SET", "v")] "${{env:UNSET}}" = Err.
+Proof.
+  split; [apply wfb_sound; vm_compute; reflexivity|].
+  split; [apply wfb_sound; vm_compute; reflexivity|].
+  split.
+  - apply Ag_plain; try (vm_compute; reflexivity).
+    constructor; [|constructor]. split; [reflexivity|]. cbn [snd].
+    eapply Ag_switch; try (vm_compute; reflexivity). apply Ag_refl.
+  - split; [discriminate|]. repeat split; vm_compute; reflexivity.
+Qed.
+
+(* the error clause: a string of the resolved document failing under the environment *)
+Example C16_example_model_error :
+  WF dims12 None unsel_doc1 /\
+  load_full dims12 [] unsel_doc1 = Err /\
+  Resolves dims12 unsel_doc1 (Mp [("k", Str "${{env:SET}}")]) /\
+  In "${{env:SET}}" (strings_of (Mp [("k", Str "${{env:SET}}")])) /\
+  resolve_str [] "${{env:SET}}" = Err.
+Proof.
+  assert (HW : WF dims12 None unsel_doc1) by (apply wfb_sound; vm_compute; reflexivity).
+  split; [exact HW|]. split; [vm_compute; reflexivity|]. split.
+  - apply (rel_reduce_ok dims12 _ None _ HW). vm_compute. reflexivity.
+  - split; [left; reflexivity| vm_compute; reflexivity].
+Qed.
+
+(* outcomes: default with quotes stripped, value set to the empty string, error, non-template *)
+Definition outcome_shape : shape :=
+  {| w1 := b "  "; w2 := b ""; nm := b "MY_ENV_VAR"; w3 := b "  "; has_pipe := true;
+     w4 := b "  "; df := b """some-default"""; w5 := b "  " |}.
+
+Example C16_example_outcome :
+  TemplateOf "${{  env:MY_ENV_VAR  |  ""some-default""  }}" (b "MY_ENV_VAR") (b """some-default""") /\
+  Outcome [] "${{  env:MY_ENV_VAR  |  ""some-default""  }}" (Ok "some-default") /\
+  Outcome [("MY_ENV_VAR", "")] "${{  env:MY_ENV_VAR  |  ""some-default""  }}" (Ok "") /\
+  Outcome [] "${{env:A}}" Err /\
+  Outcome [] "x${{env:A}}" (Ok "x${{env:A}}").
+Proof.
+  assert (HT : TemplateOf "${{  env:MY_ENV_VAR  |  ""some-default""  }}"
+                          (b "MY_ENV_VAR") (b """some-default""")).
+  { exists outcome_shape. split; [|repeat split; reflexivity].
+    unfold doc_ok, shape_ok. cbn.
+    repeat split; try (repeat constructor; fail); try discriminate.
+    right. split; [reflexivity|]. exists (b """some-default"), """"%char. split; reflexivity. }
+  split; [exact HT|]. split; [|split; [|split]].
+  - apply (O_default [] _ (b "MY_ENV_VAR") (b """some-default""") (b "some-default") HT);
+      [reflexivity| discriminate|].
+    exists [quote_c], [quote_c]. split; [reflexivity|].
+    split; [repeat constructor|]. split; [repeat constructor|]. split; cbn; discriminate.
+  - exact (O_set [("MY_ENV_VAR", "")] _ (b "MY_ENV_VAR") (b """some-default""") "" HT eq_refl).
+  - apply (O_error [] "${{env:A}}" (b "A")); [|reflexivity].
+    exists {| w1 := []; w2 := []; nm := b "A"; w3 := []; has_pipe := false; w4 := []; df := []; w5 := [] |}.
+    split; [|repeat split; reflexivity]. unfold doc_ok, shape_ok. cbn.
+    repeat split; try (repeat constructor; fail); try discriminate. congruence.
+  - apply O_other. intros H. apply C16_accepts_iff in H. apply H. vm_compute. reflexivity.
+Qed.
+
+Print Assumptions C16_model_unselected_irrelevant.
+Print Assumptions C16_model_load_resolved.
+Print Assumptions C16_model_error_iff.
+Print Assumptions C16_template_outcome.
+Print Assumptions C16_template_outcome_total.
